@@ -4,10 +4,14 @@ package main
 
 import (
 	"encoding/hex"
+	"encoding/json"
 	"fmt"
+	"os"
 	"strings"
 
+	"github.com/robfig/soy/ast"
 	"github.com/robfig/soy/soyhtml"
+	"github.com/robfig/soy/soyjs"
 	"github.com/robfig/soy/soymsg"
 	"soyverif/internal/hx"
 )
@@ -133,6 +137,9 @@ func c14Prepare(e *env, b *c14Bundle) []*c14Unit {
 			case rerr != nil:
 				genErr = true
 				e.res.Histogram["write-error:"+firstLine(rerr.Error())]++
+				// the compiler accepted the bundle but no script is produced for this file
+				e.res.Fail(hx.Violation{Kind: "oracle", What: "soyjs.Write returns an error for a file of an accepted bundle: no script is generated", Case: cs, Observed: rerr.Error()},
+					c14WriteErrorKey(e, sf, rerr.Error()))
 				if cls != "err" {
 					e.res.Fail(hx.Violation{Kind: "mismatch", What: "soyjs.Write returns an error, the model generates (" + cls + ")", Case: cs, Expected: c14Trunc(mtext), Observed: rerr.Error()}, "")
 				}
@@ -280,4 +287,134 @@ func firstLine(s string) string {
 		s = s[:100]
 	}
 	return s
+}
+
+// ---------- Write errors on accepted bundles ----------
+
+// c14Shapes lists which of the error-producing shapes occur in a file
+// (trigger predicates of the js-write-error-* findings, evaluated on the AST).
+func c14Shapes(e *env, sf *ast.SoyFileNode) map[string]bool {
+	has := map[string]bool{}
+	var walk func(n ast.Node, depth int)
+	walkAll := func(ns []ast.Node, depth int) {
+		for _, c := range ns {
+			if c != nil && !isNilNode(c) {
+				walk(c, depth)
+			}
+		}
+	}
+	walk = func(n ast.Node, depth int) {
+		switch n := n.(type) {
+		case *ast.ForNode:
+			// the generator pushes the loop frame before it walks the list expression and the ifempty block
+			if fn, ok := n.List.(*ast.FunctionNode); ok && fn.Name == "range" {
+				if len(fn.Args) < 1 || len(fn.Args) > 3 {
+					has["range-arity"] = true
+				}
+				walkAll(fn.Args, depth+1)
+			} else {
+				walk(n.List, depth+1)
+			}
+			walk(n.Body, depth+1)
+			if n.IfEmpty != nil {
+				walk(n.IfEmpty, depth+1)
+			}
+			return
+		case *ast.FunctionNode:
+			if fn, ok := soyjs.Funcs[n.Name]; ok {
+				_ = fn
+				if len(n.Args) < c14NeededArgs(e, n.Name, len(n.Args)) {
+					has["function-arity"] = true
+				}
+			} else if n.Name == "isFirst" || n.Name == "isLast" || n.Name == "index" {
+				if depth == 0 {
+					has["loopfunc"] = true
+				}
+			} else {
+				has["unknown-function"] = true
+			}
+		case *ast.PrintNode:
+			for _, d := range n.Directives {
+				if _, ok := soyjs.PrintDirectives[d.Name]; !ok {
+					has["unknown-directive"] = true
+				}
+			}
+		}
+		if p, ok := n.(ast.ParentNode); ok {
+			walkAll(p.Children(), depth)
+		}
+	}
+	walkAll(sf.Body, 0)
+	return has
+}
+
+var c14FuncAlts map[string][]struct {
+	Len    int `json:"len"`
+	Pieces []struct {
+		Arg   int  `json:"arg"`
+		IsArg bool `json:"is_arg"`
+	} `json:"pieces"`
+}
+
+// c14NeededArgs: the number of arguments the function's Apply indexes when called with n arguments
+// (from the table regenerated by tablegen).
+func c14NeededArgs(e *env, name string, n int) int {
+	if c14FuncAlts == nil {
+		c14FuncAlts = map[string][]struct {
+			Len    int `json:"len"`
+			Pieces []struct {
+				Arg   int  `json:"arg"`
+				IsArg bool `json:"is_arg"`
+			} `json:"pieces"`
+		}{}
+		var t struct {
+			Funcs []struct {
+				Name string
+				Alts []struct {
+					Len    int `json:"len"`
+					Pieces []struct {
+						Arg   int  `json:"arg"`
+						IsArg bool `json:"is_arg"`
+					} `json:"pieces"`
+				}
+			} `json:"js_funcs"`
+		}
+		if bs, err := os.ReadFile(e.tables); err == nil {
+			json.Unmarshal(bs, &t)
+		}
+		for _, f := range t.Funcs {
+			c14FuncAlts[f.Name] = f.Alts
+		}
+	}
+	for _, a := range c14FuncAlts[name] {
+		if a.Len == n || a.Len == -1 {
+			need := 0
+			for _, p := range a.Pieces {
+				if p.IsArg && p.Arg+1 > need {
+					need = p.Arg + 1
+				}
+			}
+			return need
+		}
+	}
+	return 0
+}
+
+// c14WriteErrorKey attributes a Write error to a finding: the error text says
+// which check fired, the trigger must hold on the file.
+func c14WriteErrorKey(e *env, sf *ast.SoyFileNode, msg string) string {
+	has := c14Shapes(e, sf)
+	switch {
+	case strings.Contains(msg, "range() takes") && has["range-arity"]:
+		return "js-write-error-range-arity"
+	case strings.Contains(msg, "may only be called inside a loop") && has["loopfunc"]:
+		return "js-write-error-loopfunc"
+	case strings.Contains(msg, "unimplemented function") && has["unknown-function"]:
+		return "js-write-error-unknown-function"
+	case strings.Contains(msg, "Print directive") && has["unknown-directive"]:
+		return "js-write-error-unknown-directive"
+	case strings.Contains(msg, "index out of range") && has["function-arity"]:
+		return "js-write-error-function-arity"
+	}
+	return ""
 }
